@@ -91,22 +91,31 @@ def gen_line(k, tag, ids, name, par=None, style=0):
     return Line(tag, ids, par, vals, texts)
 
 
+# ids that no float64 holds (an id is an integer of any size: GTSAM symbol keys, nanosecond time stamps), next to small, zero
+# and negative ones; every tag gets at least one of them
+ID_XY = 2 ** 53 + 1
+ID_XYZ = -(2 ** 60) - 3
+ID_SE2 = (ord("x") << 56) | 12345
+ID_SE3 = 2 ** 63 + 1
+ID_PAR = 2 ** 54 + 1
+
+
 def standard_lines(k, style=0):
     """One line of every tag (two where an edge needs two vertices of a type), consistent ids; parameters first."""
     L = []
-    L.append(gen_line(k, "PARAMS_SE3OFFSET", [3], "par3", style=style))
+    L.append(gen_line(k, "PARAMS_SE3OFFSET", [ID_PAR], "par3", style=style))
     L.append(gen_line(k, "PARAMS_SE2OFFSET", [0], "par2", style=style))
-    L.append(gen_line(k, "VERTEX_SE2", [10], "v10", style=style))
+    L.append(gen_line(k, "VERTEX_SE2", [ID_SE2], "v10", style=style))
     L.append(gen_line(k, "VERTEX_SE2", [-4], "vm4", style=style))
-    L.append(gen_line(k, "VERTEX_XY", [7], "v7", style=style))
-    L.append(gen_line(k, "VERTEX_SE3:QUAT", [2 ** 63 + 1], "vbig", style=style))
+    L.append(gen_line(k, "VERTEX_XY", [ID_XY], "v7", style=style))
+    L.append(gen_line(k, "VERTEX_SE3:QUAT", [ID_SE3], "vbig", style=style))
     L.append(gen_line(k, "VERTEX_SE3:QUAT", [0], "v0", style=style))
-    L.append(gen_line(k, "VERTEX_TRACKXYZ", [5], "v5", style=style))
-    L.append(gen_line(k, "EDGE_SE2", [-4, 10], "e0", style=style))
-    L.append(gen_line(k, "EDGE_SE2_XY", [10, 7], "e1", style=style))
-    L.append(gen_line(k, "EDGE_SE3:QUAT", [0, 2 ** 63 + 1], "e2", style=style))
-    L.append(gen_line(k, "EDGE_SE3_TRACKXYZ", [2 ** 63 + 1, 5], "e3", par=3, style=style))
-    L.append(gen_line(k, "EDGE_DISTANCE", [10, -4], "e4", style=style))
+    L.append(gen_line(k, "VERTEX_TRACKXYZ", [ID_XYZ], "v5", style=style))
+    L.append(gen_line(k, "EDGE_SE2", [-4, ID_SE2], "e0", style=style))
+    L.append(gen_line(k, "EDGE_SE2_XY", [ID_SE2, ID_XY], "e1", style=style))
+    L.append(gen_line(k, "EDGE_SE3:QUAT", [0, ID_SE3], "e2", style=style))
+    L.append(gen_line(k, "EDGE_SE3_TRACKXYZ", [ID_SE3, ID_XYZ], "e3", par=ID_PAR, style=style))
+    L.append(gen_line(k, "EDGE_DISTANCE", [ID_SE2, -4], "e4", style=style))
     return L
 
 
@@ -349,7 +358,7 @@ def obligations(r, tier, seed):
         finally:
             os.unlink(path)
         l = lines[4]        # VERTEX_XY
-        v = [x for x in g._vertices if x.id == 7][0]
+        v = [x for x in g._vertices if x.id == ID_XY][0]
         k.same([v.pose[0], v.pose[1]], [l.values[1], l.values[0]], "fields swapped")
     obs.append(Ob("C14/canary/vertex-fields-swapped", canary_swapped, tier="canary", light=True))
 
